@@ -10,7 +10,8 @@ PSt      == [pot |-> pot,  dia |-> dia]
 PStPrime == [pot |-> pot', dia |-> dia']
 CSt      == [clo |-> clo]
 CStPrime == [clo |-> clo']
-Info == [pot |-> PotTerms, rel |-> ClosRel, core |-> ClosCore]
+Info == [pot |-> PotTerms, rel |-> ClosRel, core |-> ClosCore,
+         drel |-> [k \in DOMAIN ClosRel |-> Diff(ClosRel[k], "gamma")]]    \* local slope of each relation in gamma
 MCPInit == PInit /\ PrintT(<<"INIT", ToJson(PSt)>>)
 MCCInit == CInit /\ PrintT(<<"INIT", ToJson(CSt)>>)
 ASSUME PrintT(<<"INFO", ToJson(Info)>>)
